@@ -22,6 +22,8 @@ func checkC06(c *Ctx) {
 	c.rule("C06.e", "IDLE goroutine always released; result channel buffered", 3)
 	c.rule("C06.f", "wire-supplied integers: no unguarded sum reaches a slice bound", 1)
 	c.rule("C06.g", "every FETCH response writer is closed on all paths", 3)
+	c.rule("C06.h", "the decoder un-reads a byte only directly after a successful byte read (bufio typestate; mustUnreadByte panics otherwise)", 9)
+	ruleUnreadTypestate(c, "C06.h")
 	c.assume("a panic between acquire and release is contained by the goroutine's recover (C06.b) which ends the connection; panic edges are not paths of the pairing rules")
 
 	serve := p.Func("imapserver", "Conn", "serve")
